@@ -773,9 +773,19 @@ def lsq_judge(ctx, rng, which, M, st, res, calls, desc, lines, checks, kw=None, 
                 ctx.broke('correspondence', 'C11 stream svd-spy', dict(what='scipy.linalg.pinv called %d times' % len(calls), input=desc))
         g = Wa.T @ (Wa @ x - ba) if x.shape == (n,) else np.zeros(1)
         sc = lsq_scale(Wa, ba, x)
-        if x.shape != (n,) or np.max(np.abs(g)) > rel * sc:
-            ctx.fail('C11:invert_svd:normal-equations-violated', 'shape %r, max |W^T(Wx-b)| = %.3g at scale %.3g' % (x.shape, float(np.max(np.abs(g))), sc),
-                     dict(desc, returned_x=x.tolist()))
+        # invert_svd forms pinv(W) explicitly: singular values below max(m,n)*eps*sigma_max are dropped (scipy's documented default),
+        # the retained ones enter as 1/sigma, so the honest error of x = pinv(W) b is eps * sigma_max / sigma_min_retained relative —
+        # not the 1e-15 of a backward-stable solver.  The residual is judged on the backward-error scale |W|(|W||x|+|b|) times that.
+        eps = 1.2e-7 if rel > 1e-6 else 2.3e-16
+        sv = np.linalg.svd(Wa, compute_uv=False) if Wa.size else np.zeros(0)
+        kept = sv[sv > 0.5 * max(m, n) * eps * sv[0]] if sv.size and sv[0] > 0 else sv[:0]
+        kappa = float(sv[0] / kept[-1]) if kept.size else 1.0
+        rel_svd = max(rel, min(1.0, eps * kappa))
+        if rel_svd > rel:
+            ctx.count('svd:ill-conditioned retained singular values (tolerance eps*kappa)')
+        if x.shape != (n,) or np.max(np.abs(g)) > rel_svd * sc:
+            ctx.fail('C11:invert_svd:normal-equations-violated', 'shape %r, max |W^T(Wx-b)| = %.3g at scale %.3g (retained condition number %.3g)'
+                     % (x.shape, float(np.max(np.abs(g))), sc, kappa), dict(desc, returned_x=x.tolist()))
 
 
 def _bits(vs):
@@ -1432,6 +1442,20 @@ def _replay_case(ctx, r, from_corpus=False):
                  relax=r['relaxation'], tol=r['conv_tol'], maxit=r['max_iterations'])
         ctx.case(key=('replay', fn))
         sart_oracles(ctx, c)
+    elif fn in ('invert_regularised_lstsq', 'invert_svd'):
+        which = 'lstsq' if fn == 'invert_regularised_lstsq' else 'svd'
+        W = np.array(r['W'], float); b = np.array(r['b'], float)
+        L = None if r.get('tikhonov_matrix') is None else np.array(r['tikhonov_matrix'], float)
+        args = (W, b) if which == 'svd' else (W, b, r.get('alpha', 0.01), L)
+        st, res, calls = spied(which, getattr(inv, fn), args, {})
+        nf = len(ctx.failing) + len(ctx.known_hits)
+        lines, checks = [], []
+        ctx.case(key=('replay', fn, json.dumps(r['b'])))
+        lsq_judge(ctx, ctx.rng, which, dict(W=r['W'], b=r['b'], alpha=r.get('alpha', 0.0), L=r.get('tikhonov_matrix')), st, res, calls,
+                  {k: v for k, v in r.items() if k != 'returned_x'}, lines, checks)
+        lsq_compare(ctx, lines, checks)
+        if not from_corpus and nf == len(ctx.failing) + len(ctx.known_hits):
+            ctx.log('replay: the property holds on this input now (%s)' % (np.asarray(res[0] if which == 'lstsq' else res).tolist(),))
     elif fn:
         ctx.log('replay of %s: re-running the whole check' % fn)
 
@@ -1439,7 +1463,7 @@ def _replay_case(ctx, r, from_corpus=False):
 def replay(ctx, path):
     r = json.load(open(path))
     print(json.dumps(r, indent=1, default=str)[:3000])
-    if r.get('kind') == 'failing-input' and (r.get('replay', {}).get('representation_case') or r.get('replay', {}).get('history_case') or r.get('replay', {}).get('func') in ('invert_regularised_nnls', 'invert_sart', 'invert_constrained_sart')):
+    if r.get('kind') == 'failing-input' and (r.get('replay', {}).get('representation_case') or r.get('replay', {}).get('history_case') or r.get('replay', {}).get('func') in ('invert_regularised_nnls', 'invert_regularised_lstsq', 'invert_svd', 'invert_sart', 'invert_constrained_sart')):
         _replay_case(ctx, r['replay'])
         ctx.rule = 'replay of one stored failing input against the real code with the direct oracle'
         return ctx.finish()
